@@ -293,6 +293,9 @@ package litefs
 //@   ensures   locksWF(db) [C11,C13,C10,thorough]
 //@   ensures   ret != nil ==> fresh(ret)
 //@   ensures   ret != nil ==> guardSetWF(ret, db) [C11,C13,C10,thorough]
+//@   ghost releasedAll bool = false
+//@   on call GuardSet.Unlock assert ret == nil ; then releasedAll = true
+//@   on return assert ret == nil ==> releasedAll
 //@   ensures   ret != nil && dbModeIs(db, DBModeRollback) ==> holdsWriteLockRollback(ret)
 //@   ensures   ret != nil && !dbModeIs(db, DBModeRollback) ==> holdsWriteLockWAL(ret)
 //@   nopanic
@@ -354,4 +357,237 @@ package litefs
 //@             released(addr(s.write)) && released(addr(s.ckpt)) && released(addr(s.recover)) &&
 //@             released(addr(s.read0)) && released(addr(s.read1)) && released(addr(s.read2)) &&
 //@             released(addr(s.read3)) && released(addr(s.read4)) && released(addr(s.dms))
+//@   nopanic
+
+// ===========================================================================
+// litefs.go — WAL reader and checksums on arbitrary bytes (C17, C03, C05)
+
+//@ func WALChecksum [C17,C03,C05]
+//@   requires  bo != nil && len(b) % 8 == 0
+//@   loop 1 invariant 0 <= i && i <= len(b) && i % 8 == 0
+//@   loop 1 decreases len(b) - i
+//@   modifies
+//@   nopanic
+
+//@ func JournalChecksum [C17,C05]
+//@   loop 1 invariant i < len(data)
+//@   loop 1 decreases i
+//@   modifies
+//@   nopanic
+
+// A WAL reader is usable for frames once a header was accepted: a byte order is known and the page
+// size is one WALChecksum accepts (a multiple of 8).
+//@ pred walReaderReady(r *WALReader) = r != nil && r.r != nil && r.bo != nil && r.pageSize % 8 == 0
+
+//@ func (r *WALReader) ReadHeader [C17,C03,C05]
+//@   requires  r != nil && r.r != nil
+//@   modifies  fields(r)
+//@   ensures   r.r == old(r.r)
+//@   ensures   err == nil ==> walReaderReady(r)
+//@   ensures   r.frameN == old(r.frameN)
+//@   nopanic
+
+//@ func (r *WALReader) ReadFrame [C17,C03,C05]
+//@   requires  walReaderReady(r)
+//@   modifies  fields(r), contents(data)
+//@   ensures   walReaderReady(r) && r.pageSize == old(r.pageSize)
+//@   ensures   err == nil ==> r.frameN == old(r.frameN) + 1
+//@   ensures   err != nil ==> r.frameN == old(r.frameN) && pgno == 0 && commit == 0
+//@   nopanic
+
+//@ func (r *WALReader) Offset [C17,C03]
+//@   requires  r != nil
+//@   modifies
+//@   nopanic
+
+//@ func (r *WALReader) PageSize [C17]
+//@   requires  r != nil
+//@   modifies
+//@   ensures   result == r.pageSize
+//@   nopanic
+
+// ===========================================================================
+// db.go — journal reader on arbitrary bytes (C17, C05)
+//
+// Nothing is required of the page size handed to the reader (callers pass
+// db.pageSize, which is zero for an empty database file) nor of any byte of
+// the journal. File offsets are assumed to stay below 2^62 (A-FS).
+
+//@ func journalHeaderOffset [C17,C05]
+//@   requires  offset == 0 || sectorSize != 0
+//@   modifies
+//@   ensures   offset == 0 ==> result == 0
+//@   ensures   offset != 0 ==> result == ((offset-1)/sectorSize + 1) * sectorSize
+//@   nopanic
+
+//@ func isByteSliceZero [C17]
+//@   loop 1 invariant -1 <= rangeindex && rangeindex < len(b)
+//@   modifies
+//@   nopanic
+
+//@ pred jrOK(r *JournalReader) = r != nil && (r.offset == 0 || r.sectorSize != 0) && (r.isValid ==> r.pageSize != 0 && r.sectorSize != 0)
+
+// Next: a segment is accepted only with a usable sector size and page size (so that the segment loop
+// of rollbackJournal makes progress and no division by zero can happen), and a frame buffer of
+// pageSize+8 bytes is in place for ReadFrame.
+//@ func (r *JournalReader) Next [C17,C05]
+//@   requires  jrOK(r) && r.pageSize <= 65536
+//@   ensures   jrOK(r) && r.pageSize == old(r.pageSize)
+//@   ensures   err == nil ==> r.sectorSize != 0 && r.pageSize != 0 && len(r.frame) == int(r.pageSize) + 8
+//@   ensures   err == nil ==> r.offset == old(r.offset) + int64(r.sectorSize) || old(r.offset) != 0
+//@   ensures   old(r.fi) != nil ==> r.fi == old(r.fi)
+//@   nopanic
+
+//@ func (r *JournalReader) ReadFrame [C17,C05]
+//@   requires  jrOK(r) && r.sectorSize != 0 && (r.frameN == 0 || len(r.frame) >= 8)
+//@   ensures   jrOK(r) && r.fi == old(r.fi) && r.sectorSize == old(r.sectorSize) && r.pageSize == old(r.pageSize) && r.isValid == old(r.isValid) && r.commit == old(r.commit)
+//@   ensures   unchanged(len(r.frame))
+//@   ensures   err == nil ==> len(data) == len(r.frame) - 8
+//@   nopanic
+
+//@ func (r *JournalReader) DatabaseSize [C17]
+//@   requires  r != nil
+//@   modifies
+//@   nopanic
+
+//@ func (r *JournalReader) IsValid [C17]
+//@   requires  r != nil
+//@   modifies
+//@   ensures   result == r.isValid
+//@   nopanic
+
+// ===========================================================================
+// Interface contracts. These are behavioural assumptions about every implementation of the interface
+// (listed as assumptions in the evidence): the injectable OS layer, the kernel-cache invalidator and the
+// replication client do not touch the in-memory state of DB/Store objects.
+//@ func litefs.Invalidator.*
+//@   pure
+//@ func litefs.OS.*
+//@   pure
+//@ func litefs.OS.OpenFile
+//@   pure
+//@   ensures ret1 == nil ==> ret0 != nil
+//@ func litefs.OS.Open
+//@   pure
+//@   ensures ret1 == nil ==> ret0 != nil
+//@ func litefs.OS.Create
+//@   pure
+//@   ensures ret1 == nil ==> ret0 != nil
+//@ func litefs.Client.*
+//@   pure
+
+// ===========================================================================
+// db.go — database object invariant and page checksum cache (C04; used by C02, C03, C05, C17)
+
+// Structural well-formedness of a DB object (what NewDB establishes and every method preserves).
+//@ pred dbWF(db *DB) = db != nil && db.os != nil && db.store != nil && db.pageSize <= 65536 &&
+//@      len(db.chksums.pages) <= 0xffffffff && len(db.chksums.blocks) <= 0xffffffff && chkArraysDisjoint(db) &&
+//@      typeis(aload(db.mode), DBMode) && typeis(aload(db.pos), ltx.Pos)
+
+// The per-page and per-block checksum slices never share a backing array.
+//@ pred chkArraysDisjoint(db *DB) = cap(db.chksums.blocks) == 0 || cap(db.chksums.pages) == 0 || !sameArray(db.chksums.pages, db.chksums.blocks)
+
+//@ func pageChksumBlock [C04,C03]
+//@   requires  pgno > 0
+//@   modifies
+//@   ensures   result == (pgno - 1) / 256
+//@   nopanic
+
+//@ func (db *DB) databasePageChecksum [C04,C03,C02]
+//@   requires  db != nil && pgno > 0 && len(db.chksums.pages) <= 0xffffffff
+//@   modifies
+//@   ensures   int(pgno) - 1 < len(db.chksums.pages) ==> result == db.chksums.pages[int(pgno) - 1]
+//@   ensures   int(pgno) - 1 >= len(db.chksums.pages) ==> result == 0
+//@   nopanic
+
+// setDatabasePageChecksum: the page's slot holds the new value (zero for the lock page), the cached
+// block aggregate that covers the page is cleared, every other slot and block is untouched.
+//@ func (db *DB) setDatabasePageChecksum [C04,C03,C02]
+//@   requires  db != nil && pgno > 0 && db.pageSize != 0 && len(db.chksums.pages) <= 0xffffffff && len(db.chksums.blocks) <= 0xffffffff && chkArraysDisjoint(db)
+//@   modifies  db.chksums.pages, contents(db.chksums.pages), contents(db.chksums.blocks)
+//@   ensures   chkArraysDisjoint(db)
+//@   ensures   len(db.chksums.pages) == (old(len(db.chksums.pages)) >= int(pgno) ? old(len(db.chksums.pages)) : int(pgno))
+//@   ensures   db.chksums.pages[int(pgno) - 1] == (pgno == ltx.LockPgno(db.pageSize) ? 0 : chksum)
+//@   ensures   forall i int :: 0 <= i && i < old(len(db.chksums.pages)) && i != int(pgno) - 1 ==> db.chksums.pages[i] == old(db.chksums.pages[i])
+//@   ensures   forall i int :: old(len(db.chksums.pages)) <= i && i < int(pgno) - 1 ==> db.chksums.pages[i] == 0
+//@   ensures   len(db.chksums.blocks) == old(len(db.chksums.blocks))
+//@   ensures   int((pgno - 1) / 256) < len(db.chksums.blocks) ==> db.chksums.blocks[int((pgno - 1) / 256)] == 0
+//@   ensures   forall b int :: 0 <= b && b < len(db.chksums.blocks) && b != int((pgno - 1) / 256) ==> db.chksums.blocks[b] == old(db.chksums.blocks[b])
+//@   nopanic
+
+// resetDatabasePageChecksumsAfter(commit): every slot at index >= commit is zero afterwards, slots below
+// are untouched, the length is unchanged, and no cached block aggregate survives for a block it touched.
+//@ func (db *DB) resetDatabasePageChecksumsAfter [C04,C02,C03]
+//@   requires  db != nil && db.pageSize != 0 && len(db.chksums.pages) <= 0xffffffff && len(db.chksums.blocks) <= 0xffffffff && chkArraysDisjoint(db)
+//@   loop 1 invariant commit <= i && len(db.chksums.pages) == old(len(db.chksums.pages)) && len(db.chksums.blocks) == old(len(db.chksums.blocks)) && chkArraysDisjoint(db) &&
+//@          (forall k int :: int(commit) <= k && k < int(i) && k < len(db.chksums.pages) ==> db.chksums.pages[k] == 0) &&
+//@          (forall k int :: 0 <= k && k < int(commit) && k < len(db.chksums.pages) ==> db.chksums.pages[k] == old(db.chksums.pages[k])) &&
+//@          (forall b int :: 0 <= b && b < len(db.chksums.blocks) ==> db.chksums.blocks[b] == 0 || db.chksums.blocks[b] == old(db.chksums.blocks[b]))
+//@   loop 1 modifies db.chksums.pages, contents(db.chksums.pages), contents(db.chksums.blocks)
+//@   loop 1 decreases len(db.chksums.pages) - int(i)
+//@   modifies  db.chksums.pages, contents(db.chksums.pages), contents(db.chksums.blocks)
+//@   ensures   len(db.chksums.pages) == old(len(db.chksums.pages)) && len(db.chksums.blocks) == old(len(db.chksums.blocks)) && chkArraysDisjoint(db)
+//@   ensures   forall k int :: int(commit) <= k && k < len(db.chksums.pages) ==> db.chksums.pages[k] == 0
+//@   ensures   forall k int :: 0 <= k && k < int(commit) && k < len(db.chksums.pages) ==> db.chksums.pages[k] == old(db.chksums.pages[k])
+//@   ensures   forall b int :: 0 <= b && b < len(db.chksums.blocks) ==> db.chksums.blocks[b] == 0 || db.chksums.blocks[b] == old(db.chksums.blocks[b])
+//@   nopanic
+
+// writeDatabasePage: exactly one page-aligned write of the page's bytes at (pgno-1)*pageSize, then the
+// page's checksum slot is ChecksumPage(pgno, data) (zero for the lock page) and the covering block
+// aggregate is cleared; on a replica-apply (invalidate) the kernel cache range is invalidated.
+//@ func (db *DB) writeDatabasePage [C04,C01,C02,C05,C17]
+//@   requires  dbWF(db) && db.pageSize != 0
+//@   ghost wrote bool = false
+//@   on call os.File.WriteAt assert !wrote && len(arg1) == int(db.pageSize) && arg2 == (int64(pgno) - 1) * int64(db.pageSize) ; then wrote = true
+//@   on call DB.setDatabasePageChecksum assert wrote && arg1 == pgno
+//@   on call Invalidator.InvalidateDBRange assert wrote && invalidate && arg1 == (int64(pgno) - 1) * int64(db.pageSize) && arg2 == int64(len(data))
+//@   ensures   dbWF(db) && db.pageSize == old(db.pageSize)
+//@   ensures   err == nil ==> wrote && pgno > 0 && len(data) == int(db.pageSize)
+//@   ensures   err == nil ==> len(db.chksums.pages) >= int(pgno) && db.chksums.pages[int(pgno) - 1] == (pgno == ltx.LockPgno(db.pageSize) ? 0 : ltx.ChecksumPage(pgno, data))
+//@   ensures   err == nil ==> (forall i int :: 0 <= i && i < old(len(db.chksums.pages)) && i != int(pgno) - 1 ==> db.chksums.pages[i] == old(db.chksums.pages[i]))
+//@   nopanic
+
+// truncateDatabase: the file is truncated to pageN*pageSize and fsynced before the checksum slots at and
+// beyond pageN are cleared.
+//@ func (db *DB) truncateDatabase [C04,C02,C05,C17]
+//@   requires  dbWF(db) && db.pageSize != 0
+//@   ghost stage int = 0
+//@   on call os.File.Truncate assert stage == 0 && arg1 == int64(pageN) * int64(db.pageSize) ; then stage = 1
+//@   on call os.File.Sync assert stage == 1 ; then stage = 2
+//@   on call DB.resetDatabasePageChecksumsAfter assert stage == 2 && arg1 == pageN ; then stage = 3
+//@   ensures   dbWF(db) && db.pageSize == old(db.pageSize) && len(db.chksums.pages) == old(len(db.chksums.pages))
+//@   ensures   err == nil ==> stage == 3
+//@   ensures   err == nil ==> (forall k int :: int(pageN) <= k && k < len(db.chksums.pages) ==> db.chksums.pages[k] == 0)
+//@   ensures   err == nil ==> (forall k int :: 0 <= k && k < int(pageN) && k < len(db.chksums.pages) ==> db.chksums.pages[k] == old(db.chksums.pages[k]))
+//@   nopanic
+
+// ===========================================================================
+// db.go — journal rollback and WAL scanning on arbitrary bytes (C17, C05)
+
+//@ func (db *DB) rollbackJournalSegment [C17,C05]
+//@   requires  dbWF(db) && db.pageSize != 0 && jrOK(r) && r.sectorSize != 0 && len(r.frame) >= 8
+//@   loop 1 invariant dbWF(db) && db.pageSize == old(db.pageSize) && jrOK(r) && r.sectorSize != 0 && len(r.frame) >= 8 &&
+//@          r.pageSize == old(r.pageSize) && r.isValid == old(r.isValid) && r.commit == old(r.commit) && r.sectorSize == old(r.sectorSize)
+//@   on call DB.writeDatabasePage assert arg4 == true
+//@   ensures   dbWF(db) && db.pageSize == old(db.pageSize) && jrOK(r) && r.pageSize == old(r.pageSize) && r.isValid == old(r.isValid) && r.commit == old(r.commit) && r.sectorSize == old(r.sectorSize)
+//@   nopanic
+
+// rollbackJournal: every accepted record is written back through writeDatabasePage; the size is restored
+// to the header's page count iff a valid header was read; the database is fsynced before the journal is removed.
+//@ func (db *DB) rollbackJournal [C17,C05]
+//@   requires  dbWF(db)
+//@   ghost synced bool = false
+//@   ghost truncated bool = false
+//@   loop 1 invariant dbWF(db) && db.pageSize == old(db.pageSize) && jrOK(r) && r.pageSize == db.pageSize && !synced && !truncated
+//@   on call DB.truncateDatabase assert r.isValid && arg2 == r.commit && !synced ; then truncated = true
+//@   on call os.File.Sync assert !synced && (r.isValid ==> truncated) ; then synced = (ret0 == nil)
+//@   on call OS.Remove op "ROLLBACKJOURNAL" assert synced
+//@   ensures   dbWF(db) && db.pageSize == old(db.pageSize)
+//@   nopanic
+
+// readWALPageOffsets: frames are read only after the header was accepted; the offsets map only ever
+// receives entries at commit frames.
+//@ func (db *DB) readWALPageOffsets [C17,C05,C03]
+//@   requires  dbWF(db) && f != nil
+//@   loop 1 invariant walReaderReady(r)
 //@   nopanic
